@@ -2548,6 +2548,7 @@ package decimal128
 // 1e-4 <= |d| < 1e6 (or d is zero), exponent form otherwise. The bytes emitted by fmtE / fmtF are
 // outside this contract.
 //@ func Decimal.String
+//@ returns (s)
 //@ uses rssteps=1,2,3,4,5,6,7,8,9,10,11,12,13,14,15,16,17,18,19,20,21,22,23,24,25,26,27,28,29,30,31,32,33,34,35,36,37,38,39 rsmono=0,1,2,3,4,5,6,7,8,9,10,11,12,13,14,15,16,17,18,19,20,21,22,23,24,25,26,27,28,29,30,31,32,33,34,35,36,37,38,39
 //@ logical V real
 //@ requires !special(d) ==> V >= 0 && rs(V, bexp(d)) == coef(d)
@@ -2556,6 +2557,8 @@ package decimal128
 //@ assert before "prec = 0": digs.ndig >= 1 ==> real(p10(digs.ndig - 1)) <= rs(V, digs.exp + 6176) && rs(V, digs.exp + 6176) < real(p10(digs.ndig))
 //@ assert before "buf = digs.fmtF(buf, prec, 0, false, false, false, false, false)": coef(d) == 0 || rs(V, 6172) >= 1
 //@ assert before "buf = digs.fmtF(buf, prec, 0, false, false, false, false, false)": coef(d) == 0 || rs(V, 6182) < 1
+//@ ensures isnan(d) ==> len(s) == 3 && s[0] == 78 && s[1] == 97 && s[2] == 78
+//@ ensures isinf(d) ==> len(s) == 4 && s[0] == ite(sign(d), 45, 43) && s[1] == 73 && s[2] == 110 && s[3] == 102
 //@ props C06 C20
 
 //@ func Decimal.MarshalText
@@ -2569,6 +2572,8 @@ package decimal128
 //@ assert before "prec = 0": digs.ndig >= 1 ==> real(p10(digs.ndig - 1)) <= rs(V, digs.exp + 6176) && rs(V, digs.exp + 6176) < real(p10(digs.ndig))
 //@ assert before "return digs.fmtF(nil, prec, 0, false, false, false, false, false), nil": coef(d) == 0 || rs(V, 6172) >= 1
 //@ assert before "return digs.fmtF(nil, prec, 0, false, false, false, false, false), nil": coef(d) == 0 || rs(V, 6182) < 1
+//@ ensures isnan(d) ==> len(out) == 3 && out[0] == 78 && out[1] == 97 && out[2] == 78
+//@ ensures isinf(d) ==> len(out) == 4 && out[0] == ite(sign(d), 45, 43) && out[1] == 73 && out[2] == 110 && out[3] == 102
 //@ props C06 C20
 
 //@ func formatArgs.precision
@@ -2618,6 +2623,10 @@ package decimal128
 //@ assert before "prec = 0"#3: old(prec) < 0 && coef(d) != 0 ==> rs(V, 6172) >= 1
 //@ assert before "prec = 0"#3: old(prec) < 0 && coef(d) != 0 ==> rs(V, 6182) < 1
 //@ assert before "return digs.fmtE(buf, prec-1, 0, false, false, false, true, false, false, e)": old(prec) < 0 ==> coef(d) != 0 && (rs(V, 6172) < 1 || rs(V, 6182) >= 1)
+//@ define A0 = len(old(buf))
+//@ ensures isnan(d) ==> len(out) == A0 + 3 && out[A0] == 78 && out[A0 + 1] == 97 && out[A0 + 2] == 78
+//@ ensures isinf(d) ==> len(out) == A0 + 4 && out[A0] == ite(sign(d), 45, 43) && out[A0 + 1] == 73 && out[A0 + 2] == 110 && out[A0 + 3] == 102
+//@ ensures special(d) ==> (forall k in 0..A0 - 1: out[k] == old(buf)[k])
 //@ props C06 C07 C20
 
 // digits.fmtE (C06, C07), the exponent field only: after the mantissa the output carries the letter
@@ -2898,3 +2907,40 @@ package decimal128
 //@ returns (r)
 //@ ensures o <= 256 ==> u256(r) == shr(u256(n), o)
 //@ props C09 C20
+
+// appendSpecial (C06): the spellings of the special values without width: "NaN" (with '+' or ' '
+// in front when a sign is asked for), "-Inf", "+Inf" (" Inf" for the space flag alone).
+//@ func Decimal.appendSpecial
+//@ returns (out)
+//@ requires special(d) && width <= 100000000 && width >= 0 - 100000000
+//@ define N0 = len(old(buf))
+//@ ensures width <= 0 && isnan(d) && !printSign && !padSign ==> len(out) == N0 + 3 && out[N0] == 78 && out[N0 + 1] == 97 && out[N0 + 2] == 78
+//@ ensures width <= 0 && isnan(d) && printSign ==> len(out) == N0 + 4 && out[N0] == 43 && out[N0 + 1] == 78 && out[N0 + 2] == 97 && out[N0 + 3] == 78
+//@ ensures width <= 0 && isinf(d) && sign(d) ==> len(out) == N0 + 4 && out[N0] == 45 && out[N0 + 1] == 73 && out[N0 + 2] == 110 && out[N0 + 3] == 102
+//@ ensures width <= 0 && isinf(d) && !sign(d) && !(padSign && !printSign) ==> len(out) == N0 + 4 && out[N0] == 43 && out[N0 + 1] == 73 && out[N0 + 2] == 110 && out[N0 + 3] == 102
+//@ ensures width <= 0 ==> (forall k in 0..N0 - 1: out[k] == old(buf)[k])
+//@ loop 1: invariant n <= i && i <= width
+//@ loop 2: invariant 0 <= i && i <= p
+//@ props C06 C20
+
+// Format (C06): the string form of Append into an empty buffer.
+//@ func Format
+//@ uses rssteps=1,2,3,4,5,6,7,8,9,10,11,12,13,14,15,16,17,18,19,20,21,22,23,24,25,26,27,28,29,30,31,32,33,34,35,36,37,38,39 rsmono=0,1,2,3,4,5,6,7,8,9,10,11,12,13,14,15,16,17,18,19,20,21,22,23,24,25,26,27,28,29,30,31,32,33,34,35,36,37,38,39
+//@ returns (s)
+//@ logical V real
+//@ requires !special(d) ==> V >= 0 && rs(V, bexp(d)) == coef(d)
+//@ requires prec <= 100000000 - 100 && prec >= 0 - 100000000
+//@ ensures isnan(d) ==> len(s) == 3 && s[0] == 78 && s[1] == 97 && s[2] == 78
+//@ ensures isinf(d) ==> len(s) == 4 && s[0] == ite(sign(d), 45, 43) && s[1] == 73 && s[2] == 110 && s[3] == 102
+//@ props C06 C20
+
+// Decimal.Append (C07): an unusable format specification yields "%!(NOVERB)"; special values go
+// through appendSpecial, everything else through format.
+//@ func Decimal.Append
+//@ uses rssteps=1,2,3,4,5,6,7,8,9,10,11,12,13,14,15,16,17,18,19,20,21,22,23,24,25,26,27,28,29,30,31,32,33,34,35,36,37,38,39 rsmono=0,1,2,3,4,5,6,7,8,9,10,11,12,13,14,15,16,17,18,19,20,21,22,23,24,25,26,27,28,29,30,31,32,33,34,35,36,37,38,39
+//@ returns (out)
+//@ logical V real
+//@ requires !special(d) ==> V >= 0 && rs(V, bexp(d)) == coef(d)
+//@ define A0 = len(old(buf))
+//@ ensures fst(format, len(format)) != 4 ==> len(out) == A0 + 10 && out[A0] == 37 && out[A0 + 1] == 33 && out[A0 + 2] == 40 && out[A0 + 9] == 41
+//@ props C07 C20
